@@ -4,6 +4,7 @@ Oracle: boundary-value model — for every constraint kind the values on and nex
 constraint holds (vf.model.encode raises Reject otherwise); on accept the bytes are the C01 encoding.
 One statement per run, so a rejection is attributable.
 """
+import copy
 from vf import core, isa as isamod
 from vf.model import encode, layout
 
@@ -50,7 +51,7 @@ class C12(core.Check):
         'pos:end+1', 'pos:member', 'pos:neighbour', 'pos:negative', 'pos:umax', 'pos:umax+1', 'pos:smin', 'pos:smin-1',
         'pos:page-last', 'pos:next-page-first', 'pos:prev-page-last', 'zone:GLOBAL', 'zone:redefined-GLOBAL', 'zone:named',
         'rel:from-end', 'rel:from-start', 'slice:same-page', 'slice:other-page', 'w:non-byte-multiple', 'w:byte-multiple',
-        'expect:ACCEPT', 'expect:REJECT']}
+        'expect:ACCEPT', 'expect:REJECT', 'muted-statement']}
 
     def one(self, conf, text, op, addr, tags, addr_bits=16, endian='big', zones=None, gz=None, origin=None, opcode_bits=8,
             fmt='json'):
@@ -170,6 +171,21 @@ class C12(core.Check):
                                    ['kind:sliced-address', 'pos:' + pos, 'slice:' + ('same-page' if (v >> k) == (addr >> k) else 'other-page')])
 
     def cases(self, tier, seed):
+        # every third case also runs with the statement inside #mute .. #unmute: a muted statement is still checked
+        k = 0
+        for c in self.plain_cases(tier, seed):
+            yield c
+            k += 1
+            if k % 3 == 0:
+                t = copy.deepcopy(c)
+                r = t['runs'][0]
+                m = t['meta']
+                r['files']['p.asm'] = f".org {m['addr']}\n#mute\ntst {m['text']}\n#unmute\n.byte $EE\n"
+                m['muted'] = True
+                t['tags'] = sorted(set(t['tags']) | {'muted-statement'})
+                yield t
+
+    def plain_cases(self, tier, seed):
         yield from self.directed()
         widths = list(range(1, 65)) if tier == 'thorough' else [1, 2, 3, 4, 7, 8, 9, 12, 15, 16, 17, 24, 31, 32, 33, 63, 64]
         yield from self.width_cases(widths)
@@ -249,6 +265,11 @@ class C12(core.Check):
             return [core.violated(f'satisfying-value-rejected/{kind}/{pos}', det, buckets=tags, nt=nt)]
         n = len(exp['bytes']) // 2
         got = img[:2 * n]
+        if m.get('muted'):
+            if got != '00' * n or img[2 * n:2 * n + 2] != 'ee':
+                det['got'] = img[:2 * n + 2]
+                return [core.violated(f'muted-statement-image-differs/{kind}', det, buckets=tags, nt=nt)]
+            return [core.held(buckets=tags, nt=nt)]
         if got != exp['bytes'] or img[2 * n:2 * n + 2] != 'ee':
             det['got'] = img[:2 * n + 2]
             return [core.violated(f'accepted-but-bytes-differ/{kind}', det, buckets=tags, nt=nt)]
